@@ -142,12 +142,15 @@ def _get_resp_headers(sock, success_statuses: tuple = SUCCESS_STATUSES) -> tuple
     status, resp_headers, status_message = read_headers(sock)
     if status not in success_statuses:
         content_len = resp_headers.get("content-length")
-        if content_len:
-            response_body = sock.recv(
-                int(content_len)
-            )  # read the body of the HTTP error message response and include it in the exception
-        else:
-            response_body = None
+        response_body = None
+        try:
+            body_len = int(content_len) if content_len else 0
+        except ValueError:
+            body_len = 0
+        if body_len > 0:
+            # read (the beginning of) the body of the HTTP error response and include it in the
+            # exception; never let the size of the read be dictated by the peer
+            response_body = sock.recv(min(body_len, 16384))
         raise WebSocketBadStatusException(
             f"Handshake status {status} {status_message} -+-+- {resp_headers} -+-+- {response_body}",
             status,
